@@ -20,6 +20,8 @@
      103 after all transactions finished the probe transaction (one writing and
          one read access per name) blocked
      104 a read access blocked
+     105 a writing access was accepted (its callback ran) after the Commit of its
+         own transaction had returned: nobody is left to release that lock
      110 stale element: a callback started on an element created before a
          successful commit to its name by another transaction that had not
          written that element (known finding F6)
@@ -150,6 +152,9 @@ Definition judge_step (probe : bool) (progs : list (list op)) (ntx : nat) (h : h
   let c102 := existsb (fun s : nat * nat * nat * bool => memb (snd (fst (fst s))) scrapped) ss in
   let c110 := existsb (fun s : nat * nat * nat * bool =>
                  let '(t, e, n, _) := s in
+                 (* not the cache t itself holds the write lock of: two writers of one name
+                    at the same time are outside the quantifier (bbolt: one writer per file) *)
+                 negb (existsb (fun x : nat * nat * nat => Nat.eqb (fst (fst x)) t && Nat.eqb (snd (fst x)) e) (h_wrote h)) &&
                  existsb (fun c : nat * nat * nat * list nat =>
                             let '(w, n', cstep, els) := c in
                             negb (Nat.eqb w t) && Nat.eqb n n' && negb (memb e els) &&
@@ -173,9 +178,14 @@ Definition judge_step (probe : bool) (progs : list (list op)) (ntx : nat) (h : h
   let c104 := existsb (fun t => match stat_at o t with
                                 | XBlk pc => ro_op (op_at progs t pc)
                                 | _ => false end) (seq 0 ntx) in
+  (* a writing callback runs although the Commit of its transaction has returned *)
+  let c105 := existsb (fun t => match stat_at o t with
+                                | XIn pc _ => writing_op (op_at progs t pc) &&
+                                              Nat.ltb (commit_index (nth t progs [])) pc
+                                | _ => false end) (seq 0 ntx) in
   let c103 := probe && match stat_at o (ntx - 1) with XBlk _ => true | _ => false end in
   let codes := (if c101 then [101%N] else []) ++ (if c102 then [102%N] else []) ++
-               (if c103 then [103%N] else []) ++ (if c104 then [104%N] else []) ++
+               (if c103 then [103%N] else []) ++ (if c104 then [104%N] else []) ++ (if c105 then [105%N] else []) ++
                (if c110 then [110%N] else []) in
   mkH o (S j) wrote created scrapped commits (codes ++ h_codes h).
 
@@ -208,7 +218,7 @@ Fixpoint model_run (limit : Z) (progs : list (list op)) (sched : list label) (ob
   | [], [] => (true, snd sb)
   | l :: r, o :: ro =>
       let ntx := length progs in
-      let sb1 := settle ntx true limit ntx (drive ntx true limit sb l) in
+      let sb1 := settle ntx true true limit ntx (drive ntx true true limit sb l) in
       if obs_eqb (model_obs progs (fst sb1)) o then model_run limit progs r ro sb1
       else (false, snd sb1)
   | _, _ => (false, snd sb)
@@ -216,7 +226,7 @@ Fixpoint model_run (limit : Z) (progs : list (list op)) (sched : list label) (ob
 
 Definition pick (codes : list N) : N :=
   let has c := existsb (N.eqb c) codes in
-  if has 102%N then 102%N else if has 103%N then 103%N else if has 104%N then 104%N
+  if has 102%N then 102%N else if has 103%N then 103%N else if has 104%N then 104%N else if has 105%N then 105%N
   else if has 101%N then 101%N else if has 110%N then 110%N else 0%N.
 
 Definition verdict (c : c11case) : N :=
@@ -247,6 +257,6 @@ Fixpoint model_trace (limit : Z) (progs : list (list op)) (sched : list label) (
   | [] => []
   | l :: r =>
       let ntx := length progs in
-      let sb1 := settle ntx true limit ntx (drive ntx true limit sb l) in
+      let sb1 := settle ntx true true limit ntx (drive ntx true true limit sb l) in
       model_obs progs (fst sb1) :: model_trace limit progs r sb1
   end.
